@@ -1,8 +1,14 @@
-//! C18 -- everything a session emits stays decodable by a conformant peer, at any uptime.
+//! C18 -- everything a session emits stays decodable by a conformant peer, at any uptime:
+//! World D pair histories and World E / F scripted-peer histories (incl. refused calls and peer
+//! nonsense that does not make handle_input fail), with clock offsets, jumps and drop subsets.
 
 use crate::engine::{Ctx, RunResult};
-use crate::worlds::d;
+use crate::worlds::{d, e, f};
 
 pub fn run(ctx: &mut Ctx) -> RunResult {
-    d::run(ctx, d::DMode::C18)
+    match ctx.ch.weighted("cfg.world", &[2, 1, 1]) {
+        0 => d::run(ctx, d::DMode::C18),
+        1 => e::run(ctx, e::EMode::C18),
+        _ => f::run(ctx, f::FMode::C18),
+    }
 }
